@@ -3,6 +3,7 @@ package main
 import (
 	"encoding/json"
 	"os"
+	"strconv"
 
 	"verif/harness/mgjson"
 )
@@ -26,8 +27,10 @@ func cmdHashCheck(args []string) error {
 		byHash[h] = append(byHash[h], i)
 	}
 	out := make([]any, len(in.Missing))
+	hashes := make([]string, len(in.Missing))
 	for i, m := range in.Missing {
 		am := mgjson.ASTAtom(m)
+		hashes[i] = strconv.FormatUint(am.Hash(), 10)
 		for _, j := range byHash[am.Hash()] {
 			if !mgjson.ASTAtom(in.Present[j]).Equals(am) {
 				out[i] = []any{m, in.Present[j]}
@@ -35,7 +38,7 @@ func cmdHashCheck(args []string) error {
 			}
 		}
 	}
-	return json.NewEncoder(os.Stdout).Encode(map[string]any{"collisions": out})
+	return json.NewEncoder(os.Stdout).Encode(map[string]any{"collisions": out, "hashes": hashes})
 }
 
 func init() { commands["hashcheck"] = cmdHashCheck }
